@@ -1086,6 +1086,7 @@ func (c *specCtx) call(n *ast.CallExpr) (sv, error) {
 			return sv{}, c.errf("chancap: not a channel")
 		}
 		e.chanCapFun()
+		e.libUsed["ghost:chancap (capacity given to make(chan); channels received from elsewhere have an unknown capacity)"] = true
 		return c.mk(tInt, fmt.Sprintf("(chan.cap %s)", v.S)), nil
 	case "held":
 		// held(x.mu): the function under verification holds the mutex field mu of *x (ghost kept by Lock/Unlock)
@@ -1108,6 +1109,7 @@ func (c *specCtx) call(n *ast.CallExpr) (sv, error) {
 		for i := 0; i < stt.NumFields(); i++ {
 			if stt.Field(i).Name() == sel.Sel.Name {
 				key, _ := e.heapKey(pt.Elem(), i)
+				e.libUsed["ghost:held (Lock/Unlock calls of the function under verification only; unknown at entry; callees are assumed to leave it unchanged; other goroutines are not modelled)"] = true
 				m := e.memGet(c.st, "ghost|held:"+key, "(Array Int Bool)")
 				return c.mk(tBool, fmt.Sprintf("(select %s %s)", m, xv.S)), nil
 			}
